@@ -17,13 +17,6 @@ Section S.
   Hypothesis Hwl : In wl bip39_langs.
   Hypothesis Hnf : normal_form nfkd lower wl.
 
-  Lemma listed_words_plain ws : Forall (fun w => In w wl) ws -> Forall plain ws.
-  Proof.
-    intros H. destruct (bip39_list_ok wl Hwl) as (_ & _ & _ & P). rewrite Forall_forall in *.
-    intros w Hw. destruct (P w (H w Hw)) as [Hne Hc]. split; [exact Hne|].
-    rewrite Forall_forall in *. intros c Hcw. exact (proj1 (Hc c Hcw)).
-  Qed.
-
   Lemma accepted_words_listed ws e : decode sha256 bip39_langs (Some wl) ws = Ok e -> Forall (fun w => In w wl) ws.
   Proof.
     intros H. apply (p_decode_accepts_iff sha256 Hsha wl Hwl) in H as (_ & idxs & Hi & _).
@@ -33,7 +26,7 @@ Section S.
   Lemma normalize_canonical ws : Forall (fun w => In w wl) ws ->
     Bip39.normalize nfkd lower (join_sp ws) = ws.
   Proof.
-    intros H. unfold Bip39.normalize. rewrite split_join_sp by (apply listed_words_plain; exact H).
+    intros H. unfold Bip39.normalize. rewrite split_join_sp by (apply (listed_words_plain wl Hwl); exact H).
     unfold normalize_list. apply map_id_in. intros w Hw. apply Hnf. rewrite Forall_forall in H. auto.
   Qed.
 
